@@ -169,6 +169,8 @@ class Interp:
         self.max_steps = max_steps
         self.z3 = Z3Session(list(decls))
         self.pruned = 0
+        self.const_arrays = {}
+        self.const_cache = {}
 
     def feasible(self, st):
         ok = self.z3.sat(st.cond)
@@ -235,10 +237,39 @@ class Interp:
         for k, (v, _ty) in self.m.consts.items():
             if k.endswith("::" + text) or text.endswith("::" + k):
                 return v
+        if re.match(r"^[A-Z_][A-Z0-9_]*$", text):
+            v = self.named_const(text)
+            if v is not None:
+                return v
         if "promoted[" in text and ("STUFF" in self.consts):
             # the only promoted slices in these bodies are &STUFF_SEQUENCE and &[0u8] / &[0u8, 0u8]
             return self.promoted(text)
         raise Unsupported("const " + text)
+
+    def named_const(self, name):
+        """Evaluates `const NAME: T = { ...MIR... }` by interpreting its body (e.g. PROD_PARAMS)."""
+        if name in self.const_cache:
+            return self.const_cache[name]
+        lines = self.m.text.split("\n")
+        start = None
+        for i, line in enumerate(lines):
+            if line.startswith("const %s: " % name) and line.endswith(" = {"):
+                start = i
+                break
+        if start is None:
+            return None
+        end = start
+        while end < len(lines) and lines[end] != "}":
+            end += 1
+        ty = lines[start].split(": ", 1)[1].rsplit(" = {", 1)[0]
+        body = mir.Body("const " + name, "fn konst() -> %s {" % ty, "\n".join(lines[start + 1:end + 1]))
+        res = self.call(body, [])
+        if len(res) != 1 or res[0].kind != "return":
+            raise Unsupported("const %s did not evaluate to one value" % name)
+        self.const_cache[name] = res[0].value
+        return res[0].value
+
+    const_cache = {}
 
     def promoted(self, text):
         """Evaluates a promoted constant by interpreting its own MIR body."""
@@ -395,6 +426,11 @@ class Interp:
                 return (a or b) if isinstance(a, bool) else (a | b)
             if op == "BitXor":
                 return (a != b) if isinstance(a, bool) else (a ^ b)
+            if op in ("Shr", "ShrUnchecked"):
+                return a >> b
+            if op in ("Shl", "ShlUnchecked"):
+                wd = width_of((ty or "").strip()) or (64, False)
+                return (a << b) % (1 << wd[0])
             return {"Eq": a == b, "Ne": a != b, "Lt": a < b, "Le": a <= b, "Gt": a > b, "Ge": a >= b}[op]
         # symbolic: booleans
         if isinstance(a, (bool, SymB)) and isinstance(b, (bool, SymB)):
@@ -424,7 +460,8 @@ class Interp:
             return SymB("(%s %s %s)" % (cmpu[op], ta, tb))
         if op == "Ne":
             return SymB("(not (= %s %s))" % (ta, tb))
-        ar = {"Add": "bvadd", "Sub": "bvsub", "Mul": "bvmul", "BitAnd": "bvand", "BitOr": "bvor"}
+        ar = {"Add": "bvadd", "Sub": "bvsub", "Mul": "bvmul", "BitAnd": "bvand", "BitOr": "bvor", "BitXor": "bvxor", "Shr": "bvlshr", "Shl": "bvshl",
+              "ShrUnchecked": "bvlshr", "ShlUnchecked": "bvshl", "Div": "bvudiv", "Rem": "bvurem"}
         if op in ar:
             return Sym("(%s %s %s)" % (ar[op], ta, tb), w)
         raise Unsupported("symbolic op " + op)
@@ -437,7 +474,7 @@ class Interp:
         if m:
             return self.operand(st, m.group(1))
         m = re.match(r"^(\w+)\((.*)\)$", text)
-        OPS = ("Add", "Sub", "Mul", "Div", "Rem", "BitAnd", "BitOr", "BitXor", "Eq", "Ne", "Lt", "Le", "Gt", "Ge", "AddUnchecked", "SubUnchecked")
+        OPS = ("Add", "Sub", "Mul", "Div", "Rem", "BitAnd", "BitOr", "BitXor", "Eq", "Ne", "Lt", "Le", "Gt", "Ge", "AddUnchecked", "SubUnchecked", "Shr", "Shl", "ShrUnchecked", "ShlUnchecked")
         if m and m.group(1) in OPS:
             a, b = [self.operand(st, x) for x in split_top(m.group(2))]
             return self.binop(m.group(1), a, b, dst_ty)
@@ -557,7 +594,7 @@ class Interp:
             lines = body.blocks[fr["bb"]]
             s = lines[fr["idx"]]
             last = fr["idx"] == len(lines) - 1
-            if s.startswith(("StorageLive", "StorageDead", "nop", "FakeRead", "PlaceMention", "Retag", "AscribeUserType")):
+            if s.startswith(("StorageLive", "StorageDead", "nop", "FakeRead", "PlaceMention", "Retag", "AscribeUserType", "ConstEvalCounter")):
                 fr["idx"] += 1
                 continue
             if not last:
@@ -631,6 +668,12 @@ class Interp:
                 continue
             m = re.match(r"^drop\((.*)\) -> \[return: (bb\d+), unwind.*\];$", s)
             if m:
+                try:
+                    dv = self.read_place(st, m.group(1).strip())
+                except (Unsupported, KeyError):
+                    dv = None
+                if isinstance(dv, Adt) and dv.name == "Anchor":
+                    st.events.append(("drop_anchor", dv.get("id")))
                 fr["bb"], fr["idx"] = m.group(2), 0
                 continue
             m = re.match(r"^(.*?) = (.*) -> \[return: (bb\d+), unwind.*\];$", s)
@@ -754,7 +797,7 @@ class Interp:
             return None
         if re.search(r"OwningIovec::(<'_>::)?(push|push_copy|push_borrowed)$", c):
             sl = self.as_slice(st, args[1])
-            st.events.append((c.split("::")[-1], list(sl.elems)))
+            st.events.append((c.split("::")[-1], list(sl.elems), sl.tag))
             self.ret(st, dst, UNIT, nxt)
             return None
         if re.search(r"OwningIovec::(<'_>::)?backfill_or_panic$", c):
@@ -796,6 +839,27 @@ class Interp:
             body = self.closure_body(clo)
             self.push_frame(st, body, [clo] + list(tup.fields), dst, nxt)
             return None
+        if re.search(r"NonZero::<\w+>::new_unchecked$", c):
+            self.ret(st, dst, args[0], nxt)
+            return None
+        if re.match(r"^(std|core)::mem::swap::<.*>$", c):
+            a, b = args
+            va, vb = self.deref(st, a), self.deref(st, b)
+            self.write_at(st, a.key, list(a.proj), vb)
+            self.write_at(st, b.key, list(b.proj), va)
+            self.ret(st, dst, UNIT, nxt)
+            return None
+        if c.endswith("AnchoredSlice::components"):
+            a = args[0]
+            self.ret(st, dst, Adt("tuple", [Adt("IoSlice", []), a.get("slice"), a.get("anchor")]), nxt)
+            return None
+        if re.search(r"OwningIovec::(<'_>::)?push_anchor$", c):
+            st.events.append(("push_anchor", args[1].get("id")))
+            self.ret(st, dst, UNIT, nxt)
+            return None
+        if re.search(r"^<OwningIovec(<'_>)? as Default>::default$|OwningIovec::(<'_>::)?new$", c):
+            self.ret(st, dst, Adt("OwningIovec", {}), nxt)
+            return None
         raise Unsupported("call " + c)
 
     def both(self, x, cx, y, cy):
@@ -823,8 +887,32 @@ class Interp:
                 return b
         raise Unsupported("closure body for " + loc)
 
+    def api_body(self, owner, fn):
+        """Body of a public `hcobs::Encoder` / `hcobs::Decoder` method (hcobs/src/lib.rs)."""
+        cands = []
+        for k, bodies in self.m.bodies.items():
+            b = bodies[-1]
+            if not (k.startswith("<impl at hcobs/src/lib.rs") and k.endswith("::" + fn)):
+                continue
+            sig = " ".join(t for _l, t in b.args) + " " + (b.ret_type or "")
+            if re.search(r"\b%s<" % owner, sig):
+                cands.append(b)
+        if len(cands) != 1:
+            raise Unsupported("cannot resolve %s::%s (%d candidates)" % (owner, fn, len(cands)))
+        return cands[0]
+
     def resolve(self, callee, args):
         """MIR body for calls into the hcobs encoder/decoder modules."""
+        m = re.match(r"^<(EncoderState|DecoderState) as Default>::default$", callee)
+        if m:
+            mod_ = "encoder::" if m.group(1) == "EncoderState" else "decoder::"
+            cands = [b[-1] for k, b in self.m.bodies.items() if k.startswith(mod_) and k.endswith("::default") and b[-1].ret_type and m.group(1) in b[-1].ret_type]
+            if len(cands) != 1:
+                raise Unsupported("cannot resolve %s (%d candidates)" % (callee, len(cands)))
+            return cands[0]
+        m = re.match(r"^(Encoder|Decoder)::<'_>::(\w+)$", callee)
+        if m:
+            return self.api_body(m.group(1), m.group(2))
         m = re.match(r"^(EncoderState|DecoderState|InitialState|BeforeChunk|MidHeader|InChunk)::(\w+)(?:::<.*>)?$", callee)
         if not m:
             return None
